@@ -46,9 +46,9 @@ US_MAX = 2 * 10 ** 17           # ~ year 8240
 
 NAMES = st.one_of(
     st.sampled_from(['g', 'Group', 'c', 'a b', "it's", 'x/y', "'", '/', '', "''", "'/'", "a'/'b", 'é', '日本', ' ', 'g\x00h',
-                     "/'g'", "'g'/'c'"]),
+                     "/'g'", "'g'/'c'", 'TDSm', 'xTDSmx', 'TDSh', 'G', 'C', 'É']),
     st.text(max_size=8))
-TEXT = st.one_of(st.sampled_from(['', 'abc', 'µ unit', "q'q", 'line\nbreak', '𝄞𝄞', 'x' * 50]), st.text(max_size=10))
+TEXT = st.one_of(st.sampled_from(['', 'abc', 'µ unit', "q'q", 'line\nbreak', '𝄞𝄞', 'x' * 50, 'TDSm', 'aTDSmTDSh']), st.text(max_size=10))
 INT_BOUNDARY = [0, 1, -1, 2 ** 31 - 1, 2 ** 31, -2 ** 31, -2 ** 31 - 1, 2 ** 63 - 1, 2 ** 63, -2 ** 63, 2 ** 64 - 1,
                 2 ** 32, 2 ** 15, 255, 256]
 
@@ -64,7 +64,7 @@ def us_value(draw):
 def prop(draw):
     name = draw(st.one_of(st.sampled_from(['p', 'q', 'unit_string', 'wf_increment', 'NI_x', '']), NAMES))
     kind = draw(st.sampled_from(['int', 'int', 'float', 'bool', 'npbool', 'str', 'datetime', 'dt64:us', 'dt64:ms',
-                                 'dt64:s', 'tdmsts', 'np', 'wrap']))
+                                 'dt64:s', 'dt64:ns', 'tdmsts', 'np', 'wrap']))
     if kind == 'int':
         v = draw(st.one_of(st.sampled_from(INT_BOUNDARY), st.integers(-2 ** 63, 2 ** 64 - 1)))
     elif kind == 'float':
@@ -75,6 +75,9 @@ def prop(draw):
         v = draw(TEXT)
     elif kind in ('datetime', 'dt64:us'):
         v = draw(us_value())
+    elif kind == 'dt64:ns':
+        # nanosecond unit, value a whole number of microseconds inside the datetime64[ns] range (years 1678-2262)
+        v = draw(st.one_of(st.sampled_from([0, 1, -1, 999999, 3524551547000016]), st.integers(-7 * 10 ** 15, 11 * 10 ** 15 + 2 * 10 ** 14)))
     elif kind == 'dt64:ms':
         v = draw(us_value()) // 1000
     elif kind == 'dt64:s':
@@ -118,7 +121,7 @@ def props(draw, max_props=3):
     return out
 
 
-FORMS = (['nd:' + d for d in ND_DTYPES] + ['nd:f8:strided', 'nd:i2:strided', 'nd:M8[us]', 'nd:M8[s]', 'list:float',
+FORMS = (['nd:' + d for d in ND_DTYPES] + ['nd:f8:strided', 'nd:i2:strided', 'nd:M8[us]', 'nd:M8[s]', 'nd:M8[ns]', 'nd:M8[ms]', 'list:float',
                                             'list:str', 'nd:O:str', 'list:bool', 'list:datetime'] +
          ['list:int:' + d for d in INT_LIST_PIN])
 
@@ -137,6 +140,12 @@ def channel_values(draw, form, max_len=6):
         return [draw(us_value()) for _ in range(n)]
     if form == 'nd:M8[s]':
         return [draw(us_value()) // 10 ** 6 for _ in range(n)]
+    if form == 'nd:M8[ms]':
+        return [draw(us_value()) // 1000 for _ in range(n)]
+    if form == 'nd:M8[ns]':
+        # values in microseconds (whole), materialised in nanosecond unit; datetime64[ns] covers the years 1678-2262 only
+        return [draw(st.one_of(st.sampled_from([0, 1, -1, 999999, 3524551547000016]), st.integers(-7 * 10 ** 15, 11 * 10 ** 15 + 2 * 10 ** 14)))
+                for _ in range(n)]
     if form == 'list:float':
         return [draw(st.floats(allow_nan=True, allow_infinity=True)) for _ in range(n)]
     if form in ('list:str', 'nd:O:str'):
@@ -251,7 +260,7 @@ def big_program(draw, index=None):
         index = draw(st.sampled_from([False, True]))
     if index and dest == 'stream':
         index = 'stream'
-    dtypes = ['i1', 'i2', 'i4', 'i8', 'u1', 'u2', 'u4', 'u8', 'f4', 'f8', '?', 'c8', 'c16', 'M8[us]']
+    dtypes = ['i1', 'i2', 'i4', 'i8', 'u1', 'u2', 'u4', 'u8', 'f4', 'f8', '?', 'c8', 'c16', 'M8[us]', 'str']
     sessions = []
     chan_dt = [draw(st.sampled_from(dtypes)) for _k in range(2)]       # one data type per channel
     tail = draw(st.sampled_from(['list:str', 'nd:i2', None]))
@@ -261,7 +270,7 @@ def big_program(draw, index=None):
             objs = []
             for k in range(draw(st.integers(1, 2))):
                 dt = chan_dt[k]
-                size = 16 if dt == 'M8[us]' else np.dtype(dt).itemsize
+                size = 16 if dt == 'M8[us]' else 8 if dt == 'str' else np.dtype(dt).itemsize
                 n = draw(st.sampled_from(BLOCKS)) * draw(st.sampled_from([1, 1, 2, 3])) + draw(st.sampled_from([-1, 0, 0, 0, 1]))
                 while n * size > 1200000:
                     n = (n + 1) // 2
@@ -359,6 +368,8 @@ def prop_python_value(kind, v):
         return np.bool_(v)
     if kind == 'datetime':
         return us_to_datetime(v)
+    if kind == 'dt64:ns':
+        return us_to_dt64(v).astype('datetime64[ns]')
     if kind.startswith('dt64:'):
         return us_to_dt64(v, kind[5:])
     if kind == 'tdmsts':
@@ -384,7 +395,7 @@ def expected_prop(kind, v):
         return 'bool', bool(v)
     if kind == 'str':
         return 'str', v
-    if kind == 'datetime' or kind == 'dt64:us':
+    if kind == 'datetime' or kind == 'dt64:us' or kind == 'dt64:ns':
         return 'ts', ('us', v)
     if kind == 'dt64:ms':
         return 'ts', ('us', v * 1000)
@@ -413,6 +424,8 @@ def expected_prop(kind, v):
 def gen_array(dtype, n, mult, add):
     """deterministic long array: value i = ((i * mult + add) mod 127), halved for floats, microsecond ticks for M8[us]"""
     base = (np.arange(n, dtype=np.int64) * mult + add) % 127
+    if dtype == 'str':
+        return ['s%d' % v + 'x' * (int(v) % 3) for v in (np.arange(n, dtype=np.int64) * mult + add) % 997]
     if dtype == 'M8[us]':
         return base * 1000003 + add
     if dtype in ('f4', 'f8'):
@@ -431,7 +444,7 @@ def channel_array(form, values):
         arr = gen_array(parts[1], *values)
         if parts[1] == 'M8[us]':
             return np.datetime64('1904-01-01T00:00:00', 'us') + arr.astype('timedelta64[us]')
-        return arr
+        return arr              # (a list of str for gen:str)
     if parts[0] == 'nd' and parts[1] in ND_DTYPES:
         arr = np.frombuffer(bytes(values), dtype=np.dtype(parts[1])).copy()
         if len(parts) > 2 and parts[2] == 'strided':
@@ -443,6 +456,10 @@ def channel_array(form, values):
         return np.array([us_to_dt64(v) for v in values], dtype='datetime64[us]')
     if form == 'nd:M8[s]':
         return np.array([us_to_dt64(v, 's') for v in values], dtype='datetime64[s]')
+    if form == 'nd:M8[ms]':
+        return np.array([us_to_dt64(v, 'ms') for v in values], dtype='datetime64[ms]')
+    if form == 'nd:M8[ns]':
+        return np.array([us_to_dt64(v) for v in values], dtype='datetime64[us]').astype('datetime64[ns]')
     if form == 'list:datetime':
         return [us_to_datetime(v) for v in values]
     if form == 'nd:O:str':
@@ -458,15 +475,19 @@ def expected_channel(form, values):
     parts = form.split(':')
     if parts[0] == 'gen':
         arr = gen_array(parts[1], *values)
+        if parts[1] == 'str':
+            return 'str', list(arr)
         if parts[1] == 'M8[us]':
             return 'ts', [int(v) for v in arr]
         return DTYPE_TO_T[parts[1]], arr.astype(arr.dtype.newbyteorder('<')).tobytes()
     if parts[0] == 'nd' and parts[1] in ND_DTYPES:
         return DTYPE_TO_T[parts[1]], bytes(values)
-    if form in ('nd:M8[us]', 'list:datetime'):
+    if form in ('nd:M8[us]', 'list:datetime', 'nd:M8[ns]'):
         return 'ts', list(values)
     if form == 'nd:M8[s]':
         return 'ts', [v * 10 ** 6 for v in values]
+    if form == 'nd:M8[ms]':
+        return 'ts', [v * 1000 for v in values]
     if form in ('list:str', 'nd:O:str'):
         return 'str', list(values)
     if form == 'list:float':
@@ -474,6 +495,16 @@ def expected_channel(form, values):
     if form == 'list:bool':
         return 'intlist', [int(v) for v in values]
     return 'intlist', list(values)
+
+
+def _set_props(obj, pd, pool):
+    """new properties for a re-used writer object: alternately by mutating its properties dict in place and by rebinding it"""
+    pool['_n'] = pool.get('_n', 0) + 1
+    if pool['_n'] % 2 and isinstance(obj.properties, dict):
+        obj.properties.clear()
+        obj.properties.update(pd)
+    else:
+        obj.properties = pd
 
 
 def build_objects(call, pool=None):
@@ -493,7 +524,7 @@ def build_objects(call, pool=None):
             if pool is not None and key in pool:
                 g = pool[key]
                 g.group = o['group']
-                g.properties = pd
+                _set_props(g, pd, pool)
             else:
                 g = GroupObject(o['group'], pd)
                 if pool is not None:
@@ -507,7 +538,7 @@ def build_objects(call, pool=None):
                 ch = pool[key]
                 ch.group = o['group']
                 ch.channel = o['channel']
-                ch.properties = pd
+                _set_props(ch, pd, pool)
                 new = ChannelObject(o['group'], o['channel'], arr, pd).data
                 old = ch.data
                 if (isinstance(old, np.ndarray) and isinstance(new, np.ndarray) and old.shape == new.shape
